@@ -203,7 +203,9 @@ def unary_ops(subsample=True):
         L.append(('remove_empty', 'whole', inpl))
     L += [('transpose',), ('copy',), ('head', 2, 2), ('head', 1, 1), ('nnz',), ('col',), ('row',),
           ('iter',), ('eq',), ('del_md_whole',), ('poke_zero',), ('iter_interleaved',), ('twin',),
-          ('export', 'json'), ('export', 'tsv'), ('export', 'hdf5')]
+          ('export', 'json'), ('export', 'tsv'), ('export', 'hdf5'),
+          # "not in place" said with a false value that is not the literal False
+          ('transform2_flag', 'sample', 'np_false'), ('transform2_flag', 'observation', 'zero'), ('pa_flag', 'np_false')]
     return L
 
 
@@ -294,6 +296,12 @@ def apply(op, t, m, strict=True):
     if n == 'transform2':
         return Res(t.transform(lambda v, i, md: v * 2, axis=op[1], inplace=op[2]),
                    X(lambda: m.transform(op[1], lambda v, i, md: [x * 2 for x in v])), op[2])
+    if n == 'transform2_flag':
+        flag = np.bool_(False) if op[2] == 'np_false' else 0
+        return Res(t.transform(lambda v, i, md: v * 2, axis=op[1], inplace=flag),
+                   X(lambda: m.transform(op[1], lambda v, i, md: [x * 2 for x in v])), False)
+    if n == 'pa_flag':
+        return Res(t.pa(inplace=np.bool_(False)), X(lambda: m.pa()), False)
     if n == 'transform_zero':
         return Res(t.transform(lambda v, i, md: np.where(v > 2, 0, v), axis=op[1], inplace=op[2]),
                    X(lambda: m.transform(op[1], lambda v, i, md: [0 if x > 2 else x for x in v])),
